@@ -80,8 +80,9 @@ class LabObjDerived(AutoParameterObject):
 class LabObjVar(AutoParameterObject):
     """variadic constructor: further options are collected in `options` (stored under the same name, as the documentation requires)"""
 
-    def __init__(self, a, **options):
+    def __init__(self, a, shape=(4, 3), **options):
         self.a = a
+        self.shape = shape          # a tuple by default (a list when a config spells it out)
         self.options = options
 
 
@@ -180,7 +181,7 @@ def pcanon(v):
     if isinstance(v, LabObjDerived):
         return ['obj', 'LabObjDerived', {'root': pcanon(v._root)}]
     if isinstance(v, LabObjVar):
-        return ['obj', 'LabObjVar', {'a': pcanon(v.a), 'options': pcanon(v.options)}]
+        return ['obj', 'LabObjVar', {'a': pcanon(v.a), 'options': pcanon(v.options), 'shape': pcanon(list(v.shape))}]
     if isinstance(v, LabObjSet):
         return ['obj', 'LabObjSet', {'tags': sorted(v.tags)}]
     if isinstance(v, LabChainObj):
@@ -204,7 +205,7 @@ def received_canon(v):
     if isinstance(v, LabObjDerived):
         return ['obj', 'LabObjDerived', {'root': received_canon(v._root)}]
     if isinstance(v, LabObjVar):
-        return ['obj', 'LabObjVar', {'a': received_canon(v.a), 'options': received_canon(v.options)}]
+        return ['obj', 'LabObjVar', {'a': received_canon(v.a), 'options': received_canon(v.options), 'shape': received_canon(list(v.shape))}]
     if isinstance(v, LabObjSet):
         return ['obj', 'LabObjSet', {'tags': sorted(v.tags)}]
     if isinstance(v, LabChainObj):
@@ -445,6 +446,8 @@ def make_task_class(ts, module_name, g):
         meta['name'] = ts['meta_name']
     if ts.get('group') and ts.get('base', 'Task') == 'Task':
         meta['task_group'] = ts['group']
+    if ts.get('stray_group') and ts.get('base') == 'ModuleTask':
+        meta['task_group'] = ts['stray_group']
     if ts.get('group') and ts.get('base') == 'DoubleModuleTask' and ts.get('explicit_group'):
         meta['task_group'] = ts['group']
     if ts.get('abstract'):
